@@ -274,14 +274,19 @@ def get_blocks_charge(a) -> Sequence[Sequence[int]]:
     In case of product of abelian symmetries, for each block the individual symmetry
     charges are flattened into a single tuple.
     """
-    return a.struct.t
+    if a.isdiag or a.trans == tuple(range(a.ndim_n)):
+        return a.struct.t
+    ns = a.config.sym.NSYM  # charges follow the order of tensor legs also for a lazily transposed tensor
+    return tuple(tuple(x for k in a.trans for x in t[k * ns: (k + 1) * ns]) for t in a.struct.t)
 
 
 def get_blocks_shape(a) -> Sequence[Sequence[int]]:
     """
     Shapes of all native blocks.
     """
-    return a.struct.D
+    if a.isdiag or a.trans == tuple(range(a.ndim_n)):
+        return a.struct.D
+    return tuple(tuple(D[k] for k in a.trans) for D in a.struct.D)
 
 
 def get_shape(a, axes=None, native=False) ->  int | Sequence[int]:
@@ -335,7 +340,7 @@ def __contains__(a, key) -> bool:
     key = tuple(_flatten(key)) if (hasattr(key,'__iter__') or hasattr(key,'__next__')) else (key,)
     if a.isdiag:
         return key in a.struct.t or (key+key) in a.struct.t
-    return key in a.struct.t
+    return key in a.get_blocks_charge()
 
 ##################################################
 #    output tensors info - advanced structure    #
